@@ -3,6 +3,7 @@ package main
 import (
 	"errors"
 	"fmt"
+	"sort"
 	"strings"
 	"unicode"
 	"unicode/utf8"
@@ -21,6 +22,7 @@ type SCase struct {
 	L      int      // reference language number
 	Tokens []string // whitespace-separated tokens of the NFKD form of S (known by construction)
 	Canon  bool     // S is Tokens joined by single U+0020 without leading/trailing separator
+	Equiv  bool     // S is Tokens joined by single separators each of which NFKD maps to U+0020 (same NFKD form as the canonical spelling)
 	Class  string   // operator that produced the case
 }
 
@@ -113,6 +115,24 @@ func sentenceCases(m *ref.Model, l int, base []string, heavy bool, emit func(SCa
 		}
 		mk(t, "count")
 	}
+	// large word counts, including those that are acceptable modulo 256 / 2^16 (only for the first
+	// base of each size to keep the volume down: heavy == true selects it)
+	if heavy {
+		for k := 51; k <= 600; k++ {
+			t := make([]string, k)
+			for i := range t {
+				t[i] = base[i%n]
+			}
+			mk(t, "count")
+		}
+		for _, k := range []int{65536 + 12, 65536 + 24} {
+			t := make([]string, k)
+			for i := range t {
+				t[i] = base[i%n]
+			}
+			mk(t, "count")
+		}
+	}
 	// foreign words at every position
 	for fl := 0; fl < ref.NLang; fl++ {
 		if fl == l {
@@ -150,6 +170,16 @@ func sentenceCases(m *ref.Model, l int, base []string, heavy bool, emit func(SCa
 			t := append([]string(nil), base...)
 			t[p] = d
 			mk(t, "token-damage")
+		}
+		// the same unknown token behind a separator that NFKD maps to U+0020: the token list of the
+		// NFKD form is unchanged, so the error must still name this token
+		if p > 0 && len(dam) > 0 {
+			t := append([]string(nil), base...)
+			t[p] = dam[len(dam)-1]
+			for _, sep := range []string{"\u3000", "\u00a0", "\u2003"} {
+				sv := strings.Join(t[:1], " ") + sep + strings.Join(t[1:], " ")
+				emit(SCase{S: sv, L: l, Tokens: t, Canon: false, Equiv: true, Class: "token-damage-sep"})
+			}
 		}
 	}
 	// empty token in place of a word (the separators stay): n tokens after a split on
@@ -321,4 +351,59 @@ func (c *Ctx) forAllSentenceCases(handle func(SCase)) {
 	}, func(j wj) {
 		wordDamageCases(c.M, j.l, j.i, ctx, handle)
 	})
+}
+
+// extremeSentences returns reference-valid sentences of language l built from the
+// longest list words (by bytes and by code points) and from the shortest ones, for
+// every word count: the inputs on which a size limit of any kind bites first.
+func extremeSentences(m *ref.Model, l int) [][]string {
+	type ranked struct {
+		idx  int
+		size int
+	}
+	rank := func(size func(string) int, longest bool) []int {
+		r := make([]ranked, 2048)
+		for i, w := range m.List[l] {
+			r[i] = ranked{i, size(w)}
+		}
+		sort.SliceStable(r, func(a, b int) bool {
+			if longest {
+				return r[a].size > r[b].size
+			}
+			return r[a].size < r[b].size
+		})
+		out := make([]int, 2048)
+		for i := range r {
+			out[i] = r[i].idx
+		}
+		return out
+	}
+	orders := [][]int{
+		rank(func(w string) int { return len(w) }, true),
+		rank(func(w string) int { return utf8.RuneCountInString(w) }, true),
+		rank(func(w string) int { return len(w) }, false),
+	}
+	var out [][]string
+	for _, ord := range orders {
+		pos := map[int]int{}
+		for i, x := range ord {
+			pos[x] = i
+		}
+		for _, n := range []int{12, 15, 18, 21, 24} {
+			t := make([]string, n)
+			for i := 0; i < n-1; i++ {
+				t[i] = m.List[l][ord[i]]
+			}
+			best, bestRank := -1, 1<<30
+			for x := 0; x < 2048; x++ {
+				t[n-1] = m.List[l][x]
+				if v, _ := m.ValidateTokens(t, l); v == ref.VValid && pos[x] < bestRank {
+					best, bestRank = x, pos[x]
+				}
+			}
+			t[n-1] = m.List[l][best]
+			out = append(out, append([]string(nil), t...))
+		}
+	}
+	return out
 }
